@@ -4,5 +4,6 @@ CONSTANTS
   RN = {"r"}
   XN = {"q"}
   Missing = "zz"
+  FX = {}
 INVARIANTS InvCheckExact InvCheckCount InvCheckAllowed
 CHECK_DEADLOCK FALSE
